@@ -532,7 +532,9 @@ class RmDestMixin:
     @property
     def defined_registers(self):
         regs = super().defined_registers
-        if isinstance(self.rm, (RmReg64, RmReg32, RmReg16, RmReg8)):
+        # Register mode r/m operands (general purpose and xmm) have a
+        # 'reg_rm' operand, the memory modes do not.
+        if hasattr(self.rm, "reg_rm"):
             regs.append(self.rm.reg_rm)
         return regs
 
